@@ -15,3 +15,8 @@ def answer (line : String) : String :=
   | _ => "bad-op"
 
 end MidnightZK.C12.Driver
+
+/-- `mzk-c12 < ops.txt > model.txt` : one answer line per request line. -/
+def main : IO UInt32 := do
+  MidnightZK.lineLoop (← IO.getStdin) (← IO.getStdout) MidnightZK.C12.Driver.answer
+  return 0
